@@ -228,6 +228,16 @@ class Lib(Node):
         self.recv = recv
 
 
+class Partial(Node):
+    kind = "partial"
+
+    def __init__(self, key, f: AV, args: list, kwargs: dict) -> None:
+        super().__init__(key)
+        self.f = f
+        self.args = args
+        self.kwargs = kwargs
+
+
 class Opaque(Node):
     kind = "opaque"
 
@@ -592,6 +602,8 @@ class Interp:
                 if it.optional_vars is not None:
                     self.assign(it.optional_vars, v, env, fr, s, None)
             return self.block(s.body, env, fr)
+        if isinstance(s, ast.Match):
+            return self.do_match(s, env, fr)
         if isinstance(s, ast.Continue):
             if fr.loops:
                 fr.loops[-1].continues.append(dict(env))
@@ -766,6 +778,150 @@ class Interp:
         if res is not None and s.orelse:
             res = self.block(s.orelse, res, fr)
         return res
+
+    # ------------------------------------------------------------------ structural pattern matching / isinstance
+    def of_class(self, av: AV, cls_av: AV) -> tuple[AV, AV]:
+        """(part of `av` that is an instance of the classes, the rest)."""
+        cis = [n.ci.fq for n in cls_av.refs if isinstance(n, Cls)]
+        libs = [n.name for n in cls_av.refs if isinstance(n, Lib)]
+        for n in cls_av.refs:
+            if isinstance(n, Seq):
+                a, b = self.of_class(av, n.elem)
+                return a, b
+        for c in cls_av.consts:
+            if isinstance(c.v, tuple):
+                return av, av
+        types = tuple(t for t in (getattr(builtins, l[9:], None) for l in libs if l.startswith("builtins.")) if isinstance(t, type))
+        unknown_cls = cls_av.top or any(not l.startswith("builtins.") for l in libs) or len(types) != len(libs)
+        yes_refs, no_refs = set(), set()
+        for n in av.refs:
+            if isinstance(n, Rec):
+                hit = any(c.fq in cis for c in self.repo.mro(n.cls))
+            elif isinstance(n, Seq):
+                hit = any(t in types for t in ({"list": list, "set": set, "frozenset": frozenset, "tuple": tuple}.get(n.kind),))
+            elif isinstance(n, Dict):
+                hit = dict in types
+            else:
+                hit = None
+            if hit or hit is None or unknown_cls:
+                yes_refs.add(n)
+            if not hit or unknown_cls:
+                no_refs.add(n)
+        yes_c = frozenset(c for c in av.consts if unknown_cls or (types and isinstance(c.v, types)))
+        no_c = frozenset(c for c in av.consts if unknown_cls or not (types and isinstance(c.v, types)))
+        scalar_t = unknown_cls or any(t in (str, int, float, bool, object) for t in types)
+        yes = AV(yes_c, av.top and scalar_t, av.prov if (av.top and scalar_t) else frozenset(), frozenset(yes_refs))
+        no = AV(no_c, av.top, av.prov, frozenset(no_refs))
+        return yes, no
+
+    def bind_pattern(self, p: ast.pattern, av: AV, env: dict, fr: Frame) -> tuple[bool, AV]:
+        """Binds the capture names; returns (may match, the part of the subject that can match)."""
+        if isinstance(p, ast.MatchAs):
+            ok, part = (True, av) if p.pattern is None else self.bind_pattern(p.pattern, av, env, fr)
+            if p.name is not None:
+                env[p.name] = part
+            return ok, part
+        if isinstance(p, ast.MatchValue):
+            v = self.ev(p.value, env, fr)
+            if av.concrete and v.concrete:
+                hit = frozenset(c for c in av.consts if c in v.consts)
+                return bool(hit), AV(consts=hit)
+            return True, av
+        if isinstance(p, ast.MatchSingleton):
+            hit = frozenset(c for c in av.consts if c.v is p.value)
+            return bool(hit) or av.top or av.bottom, AV(consts=hit)
+        if isinstance(p, ast.MatchOr):
+            parts = []
+            envs = []
+            for alt in p.patterns:
+                e2 = dict(env)
+                ok, part = self.bind_pattern(alt, av, e2, fr)
+                if ok:
+                    parts.append(part)
+                    envs.append(e2)
+            if envs:
+                env.update(join_env(*envs))
+            return bool(parts), join(*parts)
+        if isinstance(p, ast.MatchClass):
+            cls_av = self.ev(p.cls, env, fr)
+            yes, _no = self.of_class(av, cls_av)
+            if yes.bottom and not av.bottom:
+                return False, BOT
+            names: list[str] = []
+            for n in cls_av.refs:
+                if isinstance(n, Cls):
+                    names = [a for c in reversed(self.repo.mro(n.ci)) for a in c.ann_attrs]
+            subs = list(zip(names, p.patterns)) + list(zip(p.kwd_attrs, p.kwd_patterns))
+            for attr, sub in subs:
+                fv = join(*[n.fields.get(attr, BOT) for n in yes.refs if isinstance(n, Rec)])
+                if fv.bottom and not fv.prov:
+                    fv = self.unknown_value(f"attribute {attr} in a class pattern", yes) if not all(isinstance(n, Rec) for n in yes.refs) or not yes.refs else BOT
+                self.bind_pattern(sub, fv, env, fr)
+            if len(p.patterns) > len(names):
+                for sub in p.patterns[len(names) :]:
+                    self.bind_pattern(sub, yes if len(p.patterns) == 1 else self.unknown_value("positional class pattern", yes), env, fr)
+            return True, yes
+        if isinstance(p, ast.MatchSequence):
+            seqs = [n for n in av.refs if isinstance(n, Seq)]
+            fixed = [q for q in p.patterns if not isinstance(q, ast.MatchStar)]
+            for i, q in enumerate(p.patterns):
+                if isinstance(q, ast.MatchStar):
+                    if q.name:
+                        sq = self.seq(fr, q, "list")
+                        for n in seqs:
+                            self.grow_elem(sq, n.elem)
+                        env[q.name] = ref(sq)
+                    continue
+                parts = []
+                for n in seqs:
+                    if n.items is not None and n._elem.bottom and len(n.items) == len(p.patterns) and len(fixed) == len(p.patterns):
+                        parts.append(n.items[i])
+                    else:
+                        parts.append(n.elem)
+                for c in av.consts:
+                    if isinstance(c.v, tuple):
+                        parts.append(const(c.v[i]) if len(c.v) == len(p.patterns) == len(fixed) else consts(c.v))
+                self.bind_pattern(q, join(*parts), env, fr)
+            return bool(seqs) or any(isinstance(c.v, tuple) for c in av.consts) or av.top or av.bottom, av
+        if isinstance(p, ast.MatchMapping):
+            ds = [n for n in av.refs if isinstance(n, Dict)]
+            for kx, q in zip(p.keys, p.patterns):
+                kv = self.ev(kx, env, fr).single()
+                vals = [(n.fields[kv.v] if n.fields is not None and kv is not None and kv.v in n.fields else n.v) for n in ds]
+                self.bind_pattern(q, join(*vals), env, fr)
+            if p.rest:
+                env[p.rest] = AV(refs=frozenset(ds))
+            return bool(ds) or av.top or av.bottom, AV(refs=frozenset(ds))
+        self.unknown_value(f"pattern {type(p).__name__}")
+        return True, av
+
+    def do_match(self, s: ast.Match, env: dict, fr: Frame) -> dict | None:
+        subj = self.ev(s.subject, env, fr)
+        outs: list[dict | None] = []
+        exhaustive = False
+        for case in s.cases:
+            e2 = dict(env)
+            ok, part = self.bind_pattern(case.pattern, subj, e2, fr)
+            if not ok:
+                continue
+            if isinstance(s.subject, ast.Name) and not part.bottom:
+                e2.setdefault(s.subject.id, part)
+                if isinstance(case.pattern, (ast.MatchClass, ast.MatchValue, ast.MatchSingleton)):
+                    e2[s.subject.id] = part
+            if case.guard is not None:
+                t, f, ft, _ff = self.test(case.guard, e2, fr)
+                if not t:
+                    continue
+                e2 = self.narrowed(e2, ft)
+            else:
+                f = False
+            outs.append(self.block(case.body, e2, fr))
+            if not f and isinstance(case.pattern, ast.MatchAs) and case.pattern.pattern is None:
+                exhaustive = True
+                break
+        if not exhaustive:
+            outs.append(dict(env))
+        return join_env(*outs)
 
     def handler_names(self, h: ast.ExceptHandler, env: dict, fr: Frame) -> list[str]:
         if h.type is None:
@@ -1025,6 +1181,14 @@ class Interp:
                 return t, f, [], []
             res = self.compare(op, self.ev(left, env, fr), self.ev(right, env, fr))
             t, f = self.truth(res)
+            return t, f, [], []
+        if isinstance(e, ast.Call) and isinstance(e.func, ast.Name) and e.func.id == "isinstance" and len(e.args) == 2 and "isinstance" not in env:
+            av = self.ev(e.args[0], env, fr)
+            yes, no = self.of_class(av, self.ev(e.args[1], env, fr))
+            t = not yes.bottom or av.bottom
+            f = not no.bottom or av.bottom
+            if isinstance(e.args[0], ast.Name):
+                return t, f, [("narrow", e.args[0].id, yes)], [("narrow", e.args[0].id, no)]
             return t, f, [], []
         if isinstance(e, ast.NamedExpr):
             v = self.ev(e.value, env, fr)
@@ -1571,7 +1735,7 @@ class Interp:
                     return ref(Func(("sm", fi.fq), fi, None))
                 if fi.is_classmethod:
                     return ref(Func(("cm", fi.fq, ci.fq), fi, ref(self.node(("cls", ci.fq), lambda: Cls(("cls", ci.fq), ci)))))
-                if fi.is_property and self_av is not None:
+                if (fi.is_property or "cached_property" in fi.decorators) and self_av is not None:
                     return self.call_function(fi, [self_av], {}, fr, fi.node, bound=True)
                 return ref(Func(("m", fi.fq, id(self_av)), fi, self_av))
             if attr in c.class_attrs:
@@ -1689,6 +1853,8 @@ class Interp:
                 outs.append(self.construct(n.ci, args, kwargs, fr, e, tag))
             elif isinstance(n, Lib):
                 outs.append(self.call_lib(n, args, kwargs, fr, e, tag, star or [False] * len(args), env))
+            elif isinstance(n, Partial):
+                outs.append(self.call_value(n.f, [*n.args, *args], {**n.kwargs, **kwargs}, fr, e, tag=("partial", n.key, tag), star=[False] * len(n.args) + list(star or [False] * len(args)), env=env))
             else:
                 outs.append(self.unknown_value(f"call of {n.kind}", *args))
         if f.top or f.consts:
@@ -1778,6 +1944,8 @@ class Interp:
         finally:
             self._stack.pop()
         if is_gen:
+            if out is None and not nfr.completed:
+                raise _Dead()  # the body always raises: so does iterating the generator
             return ref(nfr.gen)
         if out is not None:
             nfr.returns = join(nfr.returns, NONE)
@@ -2076,6 +2244,12 @@ class Interp:
             return acc
         if name in ("operator.or_", "operator.add", "operator.ior", "operator.iadd"):
             return self.binop(ast.BitOr() if "or" in name else ast.Add(), a0, args[1] if len(args) > 1 else BOT, fr, e)
+        if name == "functools.partial":
+            return ref(Partial((fr.ctx, id(e), "partial"), a0, list(args[1:]), dict(kwargs)))
+        if name in ("functools.lru_cache", "functools.cache", "functools.wraps", "functools.cached_property"):
+            return a0 if args and any(isinstance(x, Func) for x in a0.refs) else self.lib("identity-decorator")
+        if name == "identity-decorator":
+            return a0
         if name == "dataclasses.field":
             if "default" in kwargs:
                 return kwargs["default"]
